@@ -7,6 +7,7 @@ import WrglModel.Model.Sorter
 import WrglModel.Model.SorterReuse
 import WrglModel.Spec.Sorter
 import WrglModel.Lemmas.C19
+import WrglModel.Lemmas.SorterFault
 import WrglModel.Gen.Facts
 namespace Wrgl
 
@@ -81,5 +82,26 @@ theorem C19_reuse_kept_spec (sortFn : List Row → List Row) (pk : List Nat) (hs
     (∀ r ∈ keptRows sortFn pk st, r ∈ rows) ∧
     (∀ r ∈ rows, ∃ r' ∈ keptRows sortFn pk st, keyOf pk r' = keyOf pk r) :=
   kept_spec sortFn pk hs w maxCell runSize rows st hw hadd
+
+/-- Spills that fail while rows are added (`AddRow` returns the error, the caller carries on, as
+    re-ingest and the doctor do): for any pattern `bad` of failing spills the sorter still holds
+    every row it was handed — in a spilled run or in memory — so nothing is missing from what the
+    merge reads. -/
+theorem C19_failed_spill_keeps_rows (sortFn : List Row → List Row) (pk : List Nat) (hs : IsSort pk sortFn)
+    (maxCell : Option Nat) (runSize : Nat) (bad : Nat → Bool) (rows : List Row) (st : SorterSt) (fs : List Nat)
+    (hadd : addRowsF sortFn maxCell runSize bad 0 { chunks := [], current := [], size := 0 } rows = .ok (st, fs)) :
+    st.held.Perm rows := by
+  have := SorterFault.addRowsF_held sortFn hs.perm maxCell runSize bad rows 0 _ st fs hadd
+  simpa [SorterSt.held] using this
+
+/-- Without failing spills the fault model is `addRows` and reports no error. -/
+theorem C19_no_fault_is_addRows (sortFn : List Row → List Row) (maxCell : Option Nat) (runSize : Nat)
+    (rows : List Row) (st : SorterSt) :
+    addRowsF sortFn maxCell runSize (fun _ => false) 0 st rows =
+      (match addRows sortFn maxCell runSize st rows with
+       | .ok st' => .ok (st', [])
+       | .err e => .err e
+       | .panic p => .panic p) :=
+  SorterFault.addRowsF_no_fault sortFn maxCell runSize rows 0 st
 
 end Wrgl
